@@ -98,7 +98,8 @@ def execute(plan, sim):
             from checks import c07
             data = c07.write_grouped(cfg, stmts, cfg["groups"], nss)
         elif plan.get("kind") == "direct":
-            data, _ = c03.write_direct(cfg, plan["ops"], sim)
+            data, _, written = c03.write_direct(cfg, plan["ops"], sim)
+            stmts = [stmts[i] for i in written]
         else:
             data = nodes.serialize(cfg, plan["ops"], sim)
     except Exception as e:  # noqa: BLE001
